@@ -110,13 +110,13 @@ def main():
                 "engine": "featmatrix" if pid == "C20" else "nxverif",
                 "level_claimed": {"category": "exploration", "text": text, "design_ref": ref},
                 "level_note": note,
-                "technique": tech + ("" if pid == "C20" else "; the same workload re-run (reduced) on the harness built in the release profile, with every optional model feature on" + (", and with nexrad-decode's default features off" if pid in ("C02","C03","C04","C07","C08","C09","C10","C11","C12","C13","C14") else "") + "; second runs of cases after other cases on the same thread, failing calls ahead of cases, seed-dependent TZ / logger / environment variables"),
+                "technique": tech + ("" if pid == "C20" else "; the same workload re-run (reduced) on the harness built in the release profile, with every optional model feature on" + (", and with nexrad-decode's default features off" if pid in ("C02","C03","C04","C07","C08","C09","C10","C11","C12","C13","C14") else "") + " + (", and with the wall clock moved past 2038 (LD_PRELOAD shim)" if pid in ("C15","C17","C18","C19") else "") + "; second runs of cases after other cases on the same thread, failing calls ahead of cases, seed-dependent TZ / logger / environment variables"),
             })
         else:
             na.append({"property_id": pid, "reason": BUILDING})
     manifest = {
         "version": 1,
-        "setup_cmd": "cd /verif/harness && CARGO_NET_OFFLINE=true cargo build --release --offline && CARGO_NET_OFFLINE=true cargo build --profile relwrap --offline && CARGO_NET_OFFLINE=true cargo build --release --offline --features allfeat --target-dir target-allfeat && CARGO_NET_OFFLINE=true cargo build --release --offline --no-default-features --features bz --target-dir target-minfeat",
+        "setup_cmd": "cd /verif/harness && CARGO_NET_OFFLINE=true cargo build --release --offline && CARGO_NET_OFFLINE=true cargo build --profile relwrap --offline && CARGO_NET_OFFLINE=true cargo build --release --offline --features allfeat --target-dir target-allfeat && CARGO_NET_OFFLINE=true cargo build --release --offline --no-default-features --features bz --target-dir target-minfeat && (clang-14 -O2 -shared -fPIC -w -o /verif/lanes/clock/nxclock.so /verif/lanes/clock/shim.c -ldl || cc -O2 -shared -fPIC -w -o /verif/lanes/clock/nxclock.so /verif/lanes/clock/shim.c -ldl)",
         "hooks": {
             "guard": "cargo feature verif-hooks on nexrad-data (off by default)",
             "enable": "the harness crate depends on nexrad-data with features=[\"verif-hooks\"]; S3 requests go to $NEXRAD_VERIF_S3_ENDPOINT when set; aws::realtime::verif_hooks::search forwards to the private rotated search",
